@@ -206,6 +206,35 @@ def build_app(variant=0):
     def admin(req):
         return "admin %s" % req.user
 
+    # further dispatcher and error paths: raw regular-expression route, per-method default handler, a status
+    # handler that fails, an exception handler that aborts
+    @app.regular_route(r"/raw/(\w+)")
+    def raw(req, word):
+        point(req, "enter")
+        return "raw %s" % word
+
+    @app.default(state.METHOD_DELETE | state.METHOD_PATCH)
+    def fallback(req):
+        point(req, "enter")
+        return "fallback %s %s" % (req.method, req.uri)
+
+    @app.http_state(409)
+    def conflict(req, *args, **kwargs):
+        raise ValueError("status handler fails for %s" % req.uri)
+
+    @app.http_state(410, state.METHOD_GET)
+    def gone(req, *args, **kwargs):
+        return "gone %s" % req.uri, "text/plain", (), 410
+
+    @app.error_handler(KeyError)
+    def on_key(req, err):
+        abort(410)
+
+    @app.route("/keyerr")
+    def keyerr(req):
+        point(req, "enter")
+        raise KeyError(req.args.getfirst("k", "k"))
+
     if variant == 1:
         @app.http_state(404)
         def my404(req, *args, **kwargs):
@@ -299,6 +328,13 @@ KINDS = {
     "auth-ok": lambda: env_of(path="/admin", headers={"Authorization": digest_header("/admin")}),
     "auth-legacy": lambda: env_of(path="/admin", headers={"Authorization": digest_header("/admin", legacy="MD5")}),
     "auth-legacy256": lambda: env_of(path="/admin", headers={"Authorization": digest_header("/admin", legacy="SHA-256")}),
+    "raw": lambda: env_of(path="/raw/word1"),
+    "default-del": lambda: env_of("DELETE", "/no/such"),
+    "default-patch": lambda: env_of("PATCH", "/other"),
+    "abort409": lambda: env_of(path="/abort/409"),
+    "abort410": lambda: env_of(path="/abort/410"),
+    "keyerr": lambda: env_of(path="/keyerr", query="k=zz"),
+    "forbidden": lambda: env_of(path="/dir"),
     "login": lambda: env_of(path="/login", query="u=bob"),
     "whoami": lambda: env_of(path="/whoami", headers={"Cookie": session_cookie()}),
     "whoami-none": lambda: env_of(path="/whoami"),
